@@ -540,7 +540,7 @@ def r10_8(ctx):
     from .c08 import r08_6
 
     r07_3(ctx)  # the operand declaration names the register class of the operand's width (pairs incl. Rn:0)
-    r08_6(ctx)  # locals of the bundled routines are disjoint: one IL variable never gets values of two widths
+    r08_6(ctx, namespacing=False)  # locals of the bundled routines are disjoint: one IL variable never gets values of two widths
     idx = get_index(ctx.env)
     hybrid_temp_type_checks(ctx)
     temporary_constructor_keeps_the_type(ctx)
